@@ -1,4 +1,5 @@
 """Sidecar contracts for btc_hd_wallet/bip39.py (C04 mnemonic encoding, C08 entropy source)."""
+from . import summaries as _SUM_ALWAYS      # noqa: F401,E402  (summaries installed independent of import order)
 import z3
 from pyvc import prims as U
 from pyvc import logic as L
@@ -164,3 +165,120 @@ class CanaryChecksumFromLastBits(_MnemonicFromEntropy):
                 parts.append(OStr(f(L.toint(idx)), "word", inj=("word", nw, idx)))
             words = [p for p in out.value.parts if isinstance(p, OStr)]
             yield "canary.last_word", eq(words[-1].inj[2], parts[-1].inj[2])
+
+
+# ------------------------------------------------------------------------------------------ C08: entropy source
+import random as _random      # noqa: E402
+from pyvc import models as M  # noqa: E402
+
+
+def _draw_model(source):
+    def m(ctx, selfv, args, kw):
+        k = L.simplify_native(args[0] if args else kw.get("k"))
+        if is_sym(k):
+            raise Undecided("getrandbits with a symbolic width")
+        n = len([e for e in ctx.effects if e[0] == "draw"])
+        r = z3.Int(f"drawn!{n}")
+        ctx.assume(z3.And(r >= 0, r < 2 ** k))
+        ctx.effects.append(("draw", (source, type(selfv).__name__, 0, 2 ** k, r), {}))
+        return r
+    m.always = True
+    return m
+
+
+def _randrange_model(source):
+    def m(ctx, selfv, args, kw):
+        a = [L.simplify_native(x) for x in args]
+        lo, hi = (0, a[0]) if len(a) == 1 else (a[0], a[1])
+        if is_sym(lo) or is_sym(hi) or len(a) > 2:
+            raise Undecided("randrange with symbolic bounds / step")
+        n = len([e for e in ctx.effects if e[0] == "draw"])
+        r = z3.Int(f"drawn!{n}")
+        ctx.assume(z3.And(r >= lo, r < hi))
+        ctx.effects.append(("draw", (source, type(selfv).__name__, lo, hi, r), {}))
+        return r
+    m.always = True
+    return m
+
+
+M.NATIVE_MODELS[(_random.SystemRandom, "getrandbits", "inst")] = _draw_model("os.urandom")
+M.NATIVE_MODELS[(_random.Random, "getrandbits", "inst")] = _draw_model("seedable Mersenne Twister")
+M.NATIVE_MODELS[(_random.SystemRandom, "randrange", "inst")] = _randrange_model("os.urandom")
+M.NATIVE_MODELS[(_random.Random, "randrange", "inst")] = _randrange_model("seedable Mersenne Twister")
+M.NATIVE_MODELS[(_random.SystemRandom, "randint", "inst")] = lambda ctx, s, a, k: (_ for _ in ()).throw(Undecided("randint"))
+M.NATIVE_MODELS[(_random.Random, "randint", "inst")] = lambda ctx, s, a, k: (_ for _ in ()).throw(Undecided("randint"))
+
+
+class _MnemonicFromEntropyBits:
+    """C08: a fresh mnemonic of N words draws exactly once, ENT = 32N/3 bits, from the OS source
+    (SystemRandom.getrandbits over os.urandom, assumption R1), over the FULL range [0, 2^ENT), and the
+    sentence encodes exactly the drawn integer (so every drawn bit, including the top one, reaches the
+    mnemonic); invalid sizes are refused before anything is drawn"""
+    target = "btc_hd_wallet.bip39.mnemonic_from_entropy_bits"
+    props = ("C08", "C04")
+    bits = 128
+    opts = dict(no_summary={"btc_hd_wallet.bip39.mnemonic_from_entropy"})      # inlined: the words must be visible
+
+    def run_real(self, f, rargs, rkw, I):
+        # observe the OS source from outside while the real function runs
+        import os
+        import random
+        calls = []
+        real = os.urandom
+
+        def spy(n):
+            calls.append(n)
+            return real(n)
+        os.urandom = spy
+        random._urandom = spy
+        state = random.getstate()
+        try:
+            random.seed(12345)
+            a = f(*rargs, **rkw)
+            random.seed(12345)
+            b = f(*rargs, **rkw)
+        finally:
+            os.urandom = real
+            random._urandom = real
+            random.setstate(state)
+        I.urandom_calls = calls
+        I.second = b
+        return a
+
+    def inputs(self, B):
+        return [], dict(entropy_bits=self.bits), NS(bits=self.bits)
+
+    def post(self, c, I, out):
+        bits = I.bits
+        if bits not in (128, 160, 192, 224, 256):
+            yield "raises.invalid_size", out.raised
+            yield "ensures.nothing_drawn", not [e for e in c.effects if e[0] == "draw"]
+            return
+        yield "ensures.returns", out.returned
+        if not out.returned:
+            return
+        if isinstance(out.value, str):
+            from spec import bip39 as SB
+            ent = SB.entropy_from_mnemonic(out.value)
+            calls = getattr(I, "urandom_calls", [])
+            yield "ensures.word_count", len(out.value.split(" ")) == bits * 3 // 32 and len(ent) * 8 == bits
+            yield "ensures.os_source_asked_for_ENT_bits_per_mnemonic", len(calls) == 2 and all(8 * n >= bits for n in calls)
+            yield "ensures.independent_of_the_seedable_generator", out.value != I.second
+            return
+        draws = [e[1] for e in c.effects if e[0] == "draw"]
+        yield "ensures.exactly_one_draw", len(draws) == 1
+        if len(draws) != 1:
+            return
+        source, cls, lo, hi, r = draws[0]
+        yield "ensures.source_is_SystemRandom", source == "os.urandom" and cls == "SystemRandom"
+        yield "ensures.full_range_0_to_2_ENT", lo == 0 and hi == 2 ** bits
+        spec, idxs = spec_sentence(Rope([(r, bits // 8, False)]))
+        words = [p for p in out.value.parts if isinstance(p, OStr)] if isinstance(out.value, SStr) else []
+        yield "ensures.word_count", len(words) == bits * 3 // 32
+        for j, (wj, ij) in enumerate(zip(words, idxs)):
+            okj = wj.inj is not None and wj.inj[0] == "word"
+            yield f"ensures.word[{j}]_encodes_the_drawn_integer", eq(wj.inj[2], ij) if okj else False
+
+
+for _b in (128, 160, 192, 224, 256, 0, 64, 127, 129, 512):
+    CONTRACTS.append(type(f"MnemonicFromEntropyBits_{_b}", (_MnemonicFromEntropyBits,), dict(bits=_b))())
